@@ -29,20 +29,18 @@ def build(tier, seed):
                                             "oracle": "same (verdict, word, iterations) as a fresh decoder"}, w,
                                       stubs="TABLE" if kind == "i8" else "SURROGATE"),
                               "crate::%s!(%s, %s, %s, h_%s, %d, %d, %d);" % (mac, hn, stubs, ty, name, n, lim, max(n, len(rows), lim) + 3)))
-    # --- item 2: real two-call history through the factory, second call with zero iterations
+    # --- item 2: real two-call history, second call with zero iterations
     limas = [1] if tier == "quick" else [0, 1]
     for impl, ty, sched in impls:
         kind = arith.type_info(ty)["kind"]
         stubs = "with_table_stubs" if kind == "i8" else "with_surrogate_stubs"
-        if tier == "quick" and not (impl.endswith("f64") or impl in ("Minstarapproxi8", "Aminstari8", "HLMinstarapproxi8", "HLAminstari8")):
-            continue
         for name, n, rows in fam[:1]:
             for la in limas:
                 hn = "c10_zero_%s_%s_a%d" % (impl, name, la)
                 items.append((Harness(hn, {"implementation": impl, "matrix": name, "history": "decode(A, %d); decode(B, 0)" % la,
                                             "input": "A and B: %d LLRs each from s*2^-e" % n, "oracle": "second call == fresh decoder's decode(B, 0)"},
                                       (8.0 if kind == "i8" else 15.0), stubs="TABLE" if kind == "i8" else "SURROGATE"),
-                              "crate::c10_zero_iter!(%s, %s, %s, h_%s, %d, %d, %d);" % (hn, stubs, impl, name, n, la, max(n, len(rows), la) + 3)))
+                              "crate::c10_zero_iter!(%s, %s, %s, %s, h_%s, %d, %d, %d);" % (hn, stubs, sched, ty, name, n, la, max(n, len(rows), la) + 3)))
     # --- item 1: arithmetic scratch
     seqs_all = [(0, 0), (1, 1), (1, 0), (0, 1)]
     for t in arith.all_types():
